@@ -78,12 +78,15 @@ def spanDigits : List Char → List Char × List Char
 /-- `int(<digits>)` -/
 def digitsVal (ds : List Char) : Nat := ds.foldl (fun a c => 10 * a + (c.toNat - 48)) 0
 
+/-- the optional sign `[-+]{0,1}`: (is it a minus, the text after it) -/
+def signSplit : List Char → Bool × List Char
+  | '-' :: r => (true, r)
+  | '+' :: r => (false, r)
+  | cs => (false, cs)
+
 /-- `period.search(bump)`: the token at the head of the text, as `(int(bmp[:-1]), bmp[-1], bump[len(bmp):])` -/
 def nextToken (cs : List Char) : Option (Int × Char × List Char) :=
-  let sb : Bool × List Char := match cs with
-    | '-' :: r => (true, r)
-    | '+' :: r => (false, r)
-    | _ => (false, cs)
+  let sb := signSplit cs
   match spanDigits sb.2 with
   | ([], _) => none
   | (_, []) => none
@@ -92,7 +95,7 @@ def nextToken (cs : List Char) : Option (Int × Char × List Char) :=
     else none
 
 /-- the `while period.search(bump) is not None` loop followed by the leftover test (lines 388-423).
-`fuel` only makes the recursion structural; `cs.length + 1` always suffices (`Props.C09.loop_fuel`). -/
+`fuel` only makes the recursion structural; `cs.length + 1` always suffices (`Bump.loop_fuel` in PygProofs/Lemmas/TokenLemmas.lean). -/
 def loop : Nat → List Char → Int → Res Int
   | 0, _, _ => .error .other
   | fuel + 1, cs, t =>
@@ -113,10 +116,11 @@ def resolveNamed (cs : List Char) : List Char :=
   | some kv => kv.2.toList
   | none => cs
 
+/-- the tokenizer loop with enough fuel for the text -/
+def bumpCs (cs : List Char) (t : Int) : Res Int := loop (cs.length + 1) cs t
+
 /-- a string bump -/
-def bumpStr (t : Int) (s : String) : Res Int :=
-  let cs := resolveNamed (lower s)
-  loop (cs.length + 1) cs t
+def bumpStr (t : Int) (s : String) : Res Int := bumpCs (resolveNamed (lower s)) t
 
 /-- one element of `*bumps` -/
 inductive BumpArg where
